@@ -14,48 +14,7 @@ def _norm(s):
     return "".join(s.split())
 
 
-def _inline_lets(fn):
-    """the function with single-assignment, single-use local names replaced by their defining expressions (named temporaries are immaterial to the
-    obligations below); returns a new FunctionDef"""
-    import copy
-    fn = copy.deepcopy(fn)
-    changed = True
-    while changed:
-        changed = False
-        assigns = {}
-        for n in ast.walk(fn):
-            if isinstance(n, ast.Assign) and len(n.targets) == 1 and isinstance(n.targets[0], ast.Name):
-                assigns.setdefault(n.targets[0].id, []).append(n)
-            elif isinstance(n, (ast.AugAssign, ast.AnnAssign, ast.For, ast.With, ast.ExceptHandler, ast.NamedExpr)):
-                for t in ast.walk(n.target if hasattr(n, "target") and n.target is not None else ast.Pass()):
-                    if isinstance(t, ast.Name):
-                        assigns.setdefault(t.id, []).extend([None, None])
-                if isinstance(n, ast.ExceptHandler) and n.name:
-                    assigns.setdefault(n.name, []).extend([None, None])
-        params = {a.arg for a in fn.args.args + fn.args.kwonlyargs + fn.args.posonlyargs}
-        for name, defs in assigns.items():
-            if len(defs) != 1 or defs[0] is None or name in params:
-                continue
-            uses = [n for n in ast.walk(fn) if isinstance(n, ast.Name) and n.id == name and isinstance(n.ctx, ast.Load)]
-            if len(uses) != 1:
-                continue
-            a = defs[0]
-
-            class Sub(ast.NodeTransformer):
-                def visit_Name(self, node):
-                    if node.id == name and isinstance(node.ctx, ast.Load):
-                        return copy.deepcopy(a.value)
-                    return node
-
-                def visit_Assign(self, node):
-                    if node is a:
-                        return None
-                    return self.generic_visit(node)
-            fn = Sub().visit(fn)
-            ast.fix_missing_locations(fn)
-            changed = True
-            break
-    return fn
+from .common import inline_lets as _inline_lets  # noqa: E402
 
 
 def obligations(repo):
